@@ -669,7 +669,12 @@ func grpcErrorFromTrailer(bufferPool *bufferPool, protobuf Codec, trailer http.H
 			retErr.details = append(retErr.details, d)
 		}
 		// Prefer the Protobuf-encoded data to the headers (grpc-go does this too).
-		retErr.code = Code(status.Code)
+		if status.Code != 0 {
+			// The Grpc-Status trailer already said that the call failed; a
+			// binary status claiming OK must not turn this into an error that
+			// carries the OK code.
+			retErr.code = Code(status.Code)
+		}
 		retErr.err = errors.New(status.Message)
 	}
 
